@@ -3,12 +3,13 @@ from __future__ import annotations
 
 import hashlib
 import itertools
+import copy
 import json
 import multiprocessing as mp
 import os
 import random
 
-from .. import delegation_engine as de
+from .. import gamma, delegation_engine as de
 from .. import lib, mutation_engine as me, root_engine, traces_delegation, traces_root, traces_verify
 from .. import verify_engine as ve
 from ..tlc import MachineryFailure
@@ -148,6 +149,50 @@ def check(run):
         conc = {i: [{"mutation": d}] for i, (ev, d) in enumerate(evl, 1)}
         traces_verify.judge(run, traces, conc, owns, label="mutated-call")
     run.extra["mutated_calls_classified_by_alpha"] = len(classified)
+    # the clock: no outcome depends on it, whatever the dates inside the documents - frozen just before / at / after every date that occurs
+    # in the arguments, and TICKING (0.6 s per read) from 0.3 s before it, so that two reads inside one call straddle the instant
+    import calendar
+    import datetime as _dt
+    from ..fakeclock import FakeClock
+    table = me.api_table(fx)
+    nclock = 0
+
+    def dates_in(x):
+        if isinstance(x, dict):
+            for v in x.values():
+                yield from dates_in(v)
+        elif isinstance(x, list):
+            for v in x:
+                yield from dates_in(v)
+        elif isinstance(x, str) and len(x) == 20 and x.endswith("Z") and x[4] == "-":
+            try:
+                yield calendar.timegm(_dt.datetime.strptime(x, "%Y-%m-%dT%H:%M:%SZ").timetuple())
+            except ValueError:
+                pass
+    # OpenPGP headers carry a signature-creation time (sub-packet 2): those instants matter too
+    hdr_times = {int.from_bytes(h[i + 2:i + 6], "big") for h in gamma.HEADERS for i in range(len(h) - 6) if h[i:i + 2] == b"\x05\x02"}
+    for name in ("verify_root", "verify_delegation", "verify_delegation:pkg", "verify_delegation:gpg", "verify_signable", "verify_signable:gpg",
+                 "verify_gpg_signature", "checkformat_delegating_metadata", "checkformat_gpg_signature", "is_gpg_signature", "checkformat_any_signature",
+                 "checkformat_utc_isoformat", "checkformat_signable"):
+        fn, args = table[name][0], table[name][1]
+        base = me.execute(name, fn, copy.deepcopy(args))
+        instants = sorted(set(d for a in args for d in dates_in(a)) | hdr_times | {0, 951782400, 4102444800, 253402300799 - 86400 * 400})
+        clock = FakeClock()
+        try:
+            for inst in instants:
+                for off, tick in ((-1, 0), (0, 0), (1, 0), (-0.3, 0.6), (-86400 * 31, 0), (-0.05, 0.1)):
+                    clock.set_epoch(max(0, inst + off), tick)
+                    got = me.execute(name, fn, copy.deepcopy(args))
+                    run.evaluations += 1
+                    nclock += 1
+                    if got != base:
+                        run.violation(f"{name.split(':')[0]}: the outcome depends on the clock ({base} with the real clock, {got} with "
+                                      f"{'a ticking' if tick else 'the'} clock near a date that occurs in its arguments)",
+                                      {"kind": "clock", "api": name, "instant": inst, "offset": off, "tick": tick, "real_clock": base, "fake_clock": got})
+        finally:
+            clock.close()
+        run._distinct.add("clock-" + name)
+    run.extra["clock_independence_calls"] = nclock
     # the repository's own test-suite as a trace source
     from .. import traces_tests
     traces_tests.judge(run, lambda o: True)
